@@ -41,6 +41,8 @@ var c1witnesses = []c1witness{
 	// finding 5 with the erroneous field made erroneous by a comprehension-delivered pattern
 	// (seen by the tester of seeded C01-c on the unchanged tree; erroneous in BOTH orders, so
 	// outside the late-constraints stream whose holders are error-free)
+	{c1clsK,
+		"#B: close({c: {}})\nw: {c: {a: _}} & #B\n", "w: {c: {a: _}} & #B\n#B: close({c: {}})\n"},
 	{"error-placement-through-reference",
 		"s: {a: 1, if true {[string]: >5}}\nout: s.a + 1\n", "out: s.a + 1\ns: {a: 1, if true {[string]: >5}}\n"},
 	{"top-unified-with-struct-holding-failing-comprehension",
